@@ -117,3 +117,22 @@ Proof. pose proof typematch_recursion_ok as H. repeat (apply andb_prop in H; des
 
 Lemma variadic_test_total params : exists b, variadic_mismatch (indexes_guarded gen_typematch_decremented_indexes) params = Ok b.
 Proof. rewrite typematch_indexes_guarded. apply variadic_mismatch_total. Qed.
+
+(* ast_walker.go: every pointer-typed child that go/ast declares optional and the walker hands on is handed to walk itself under a
+   test of the field (`if n.F != nil`), no method of the walker tests a node parameter of interface type; the children the
+   Ident / BasicLit buckets depend on are in the inventory *)
+Lemma walker_children_ok :
+  walker_children_okb gen_walker_children gen_walker_iface_helpers &&
+  walker_covers gen_walker_children "BranchStmt" "Label" && walker_covers gen_walker_children "ImportSpec" "Name" &&
+  walker_covers gen_walker_children "Field" "Tag" && walker_covers gen_walker_children "FuncDecl" "Body" &&
+  walker_covers gen_walker_children "FuncType" "Results" = true.
+Proof. vm_compute. reflexivity. Qed.
+
+Lemma walker_optional_children_total node field class optional callee guarded c :
+  In (node, field, class, optional, callee, guarded) gen_walker_children ->
+  String.eqb class "ptr" && optional = true -> holds class c = true ->
+  guarded = true /\ walk_child field_test c = Ok tt.
+Proof.
+  apply (walker_children_total gen_walker_children gen_walker_iface_helpers).
+  pose proof walker_children_ok as H. repeat (apply andb_prop in H; destruct H as [H ?]). exact H.
+Qed.
